@@ -86,7 +86,20 @@ fn main() {
         };
         std::process::exit(code);
     }
-    let code = match id.as_str() {
+    // a panic of the machinery itself (outside the guarded calls of the subject) is a machinery
+    // failure (exit 2), never a verdict
+    let code = match common::catch(|| run_check(&id, tier)) {
+        Ok(code) => code,
+        Err(p) => {
+            println!("MACHINERY: the harness panicked: {p} (last panic location: {})", common::last_panic_location());
+            2
+        }
+    };
+    std::process::exit(code);
+}
+
+fn run_check(id: &str, tier: Tier) -> i32 {
+    match id {
         "C01" => props::c01::run(tier),
         "C02" => props::c02::run(tier),
         "C03" => props::c03::run(tier),
@@ -111,6 +124,5 @@ fn main() {
             eprintln!("unknown property {id}");
             2
         }
-    };
-    std::process::exit(code);
+    }
 }
